@@ -538,7 +538,7 @@ def case_specs(ctx, r):
     for N in (2, 3):
         assigns = assignments(N, True)
         if not ctx.thorough:
-            idx = r.choice(len(assigns), 10 if N == 2 else 22, replace=False)
+            idx = r.choice(len(assigns), min(len(assigns), 8 if N == 2 else 22), replace=False)
             assigns = [assigns[int(i)] for i in idx]
         for blocks in assigns:
             reps = 2 if ctx.thorough else 1
